@@ -64,3 +64,311 @@ Print Assumptions C12_persisted_count.
 Theorem C12_blocks : forall size bs, blocks (mkTree size bs) = sp_blocks size bs.
 Proof. exact blocks_spec. Qed.
 Print Assumptions C12_blocks.
+
+(* ======== Gap audit (proofs in Proofs/GapCopy.v) ========
+   (a) the offsets clauses stated about the model's own iterators and its own is_persisted predicate (no Shape);
+   (b) the bound size <= 2^63 of the post-order theorems is sharp (witness);
+   (c) the last sentence of the property, which had no theorem: sync::copy, fsm::copy and flip lose and invent
+       nothing.  Proofs/GapCopy.v cannot use Proofs/HistOb.v (it imports this file); the composition with C03
+       (copy / flip of a created store is the created store of the other order) is in Proofs/GapCopyCreated.v. *)
+From BaoV Require Import Model.Sync Model.Fsm Proofs.DecWitness Proofs.GapCopy.
+
+(* ---- (a) slots in traversal order, about pre_order_nodes_iter / post_order_nodes_iter directly ---- *)
+Theorem C12_gap_iter_pre_offsets : forall size bs, size <= 2 ^ 63 -> bs <= 10 ->
+  map (pre_order_offset (mkTree size bs))
+      (filter (is_persisted (mkTree size bs)) (pre_order_nodes_iter (mkTree size bs))) =
+  map (fun i => Some (N.of_nat i)) (seq 0 (N.to_nat (outboard_hash_pairs (mkTree size bs)))).
+Proof. exact gap_iter_pre_offsets. Qed.
+Print Assumptions C12_gap_iter_pre_offsets.
+
+Theorem C12_gap_iter_post_offsets : forall size bs, size <= 2 ^ 63 -> bs <= 10 ->
+  map (fun nd => option_map po_value (post_order_offset (mkTree size bs) nd))
+      (filter (is_persisted (mkTree size bs)) (post_order_nodes_iter (mkTree size bs))) =
+  map (fun i => Some (N.of_nat i)) (seq 0 (N.to_nat (outboard_hash_pairs (mkTree size bs)))).
+Proof. exact gap_iter_post_offsets. Qed.
+Print Assumptions C12_gap_iter_post_offsets.
+
+(* the other nodes of the traversal (the half-filled last leaf) have no slot in either order *)
+Theorem C12_gap_iter_none : forall size bs nd, size <= 2 ^ 63 -> bs <= 10 ->
+  In nd (pre_order_nodes_iter (mkTree size bs)) -> is_persisted (mkTree size bs) nd = false ->
+  In nd (post_order_nodes_iter (mkTree size bs)) /\
+  pre_order_offset (mkTree size bs) nd = None /\ post_order_offset (mkTree size bs) nd = None.
+Proof. exact gap_iter_none. Qed.
+Print Assumptions C12_gap_iter_none.
+
+(* one-to-one and onto, both orders: same stored nodes in both traversals, every stored node has a slot below
+   the number of pairs in both orders, equal slots (in either order) mean equal nodes, every slot is taken *)
+Theorem C12_gap_slots_bijective : forall size bs, size <= 2 ^ 63 -> bs <= 10 ->
+  let t := mkTree size bs in
+  let stored nd := In nd (pre_order_nodes_iter t) /\ is_persisted t nd = true in
+  (forall nd, stored nd <-> In nd (post_order_nodes_iter t) /\ is_persisted t nd = true) /\
+  (forall nd, stored nd -> exists o o', o < outboard_hash_pairs t /\ o' < outboard_hash_pairs t /\
+     pre_order_offset t nd = Some o /\ option_map po_value (post_order_offset t nd) = Some o') /\
+  (forall nd nd', stored nd -> stored nd' ->
+     pre_order_offset t nd = pre_order_offset t nd' \/
+     option_map po_value (post_order_offset t nd) = option_map po_value (post_order_offset t nd') -> nd = nd') /\
+  (forall o, o < outboard_hash_pairs t ->
+     (exists nd, stored nd /\ pre_order_offset t nd = Some o) /\
+     (exists nd, stored nd /\ option_map po_value (post_order_offset t nd) = Some o)).
+Proof. exact gap_slots_bijective. Qed.
+Print Assumptions C12_gap_slots_bijective.
+
+(* ---- (b) REFUTED beyond size <= 2^63 ("for every blob size"): witness size = 2^63 + 1, block size 0, the root
+   2^53 - 1 of the tree (2^53 stored pairs).  The root covers chunks [0, 2^54); ChunkNum::to_bytes is
+   `self.0 << 10`, so the byte end 2^64 wraps to 0, `node.byte_range().end <= self.size` holds and
+   BaoTree::post_order_offset answers Stable (2^54 - 2), a slot far outside the outboard, instead of
+   Unstable (2^53 - 1).  Real behaviour of the Rust for blobs above 8 EiB; the bound of the theorems is sharp. *)
+Theorem C12_gap_post_offset_beyond_refuted :
+  exists size bs nd v,
+    2 ^ 63 < size /\ size < 2 ^ 64 /\ bs = 0 /\ nd = fst (shifted (mkTree size bs)) /\
+    is_persisted (mkTree size bs) nd = true /\
+    post_order_offset (mkTree size bs) nd = Some (Stable v) /\
+    outboard_hash_pairs (mkTree size bs) <= v.
+Proof. exact gap_post_offset_beyond_refuted. Qed.
+Print Assumptions C12_gap_post_offset_beyond_refuted.
+
+(* ---- (c) copy and flip ---- *)
+
+(* copy_gen (Proofs/GapCopy.v, specification side) is the loop of sync::copy / fsm::copy over an abstract loader
+   `ld : node -> io::Result<Option<pair>>`: for each node in order, a pair the loader returns is saved into the
+   target, None is skipped, a failure of the loader or of the save ends the loop with that failure.
+   The model's two loops are its instances: *)
+Theorem C12_gap_copy_is_gen : forall (HO : hops) (from to : outboard HO),
+  copy HO from to = copy_gen HO (load_sync HO from) (pre_order_nodes_iter (ob_tree from)) to /\
+  copy_fsm HO from to = copy_gen HO (load_fsm HO from) (pre_order_nodes_iter (ob_tree from)) to.
+Proof. exact gap_copy_is_gen. Qed.
+Print Assumptions C12_gap_copy_is_gen.
+
+(* Any node-keyed loader (e.g. a map outboard with missing entries), any list of nodes, a target of one of the
+   four slotted kinds over the tree (an in-memory target must be at least as long as the outboard; a file may have
+   any length, even 0): if the loader fails nowhere and answers pairs only at stored nodes of the tree, the copy
+   succeeds, keeps kind / root / tree, only grows the target up to the outboard size, every pair the loader has
+   is what both loaders of the result return (nothing lost), and a stored node the loader does not have (or that
+   is not in the list) whose slot was inside the target keeps the pair the target had (nothing invented). *)
+Theorem C12_gap_copy_gen : forall (HO : hops) (size bs : N) (ld : N -> res io_kind (option (hash HO * hash HO)))
+  (nodes : list N) (to : outboard HO),
+  size <= 2 ^ 63 -> bs <= 10 ->
+  (forall nd l r, ld nd = Ok (Some (l, r)) -> length l = 32%nat /\ length r = 32%nat) ->
+  (ob_k to = PreIO \/ ob_k to = PostIO \/ ob_k to = PreMem \/ ob_k to = PostMem) ->
+  ob_tree to = mkTree size bs ->
+  ((ob_k to = PreMem \/ ob_k to = PostMem) -> (sp_blocks size bs - 1) * 64 <= blen HO (ob_data to)) ->
+  (forall nd, In nd nodes -> exists x, ld nd = Ok x) ->
+  (forall nd p, In nd nodes -> ld nd = Ok (Some p) ->
+     In nd (sp_pre_nodes size bs) /\ sp_persisted size bs nd = true) ->
+  exists to', copy_gen HO ld nodes to = Ok to' /\
+    ob_k to' = ob_k to /\ ob_root to' = ob_root to /\ ob_tree to' = ob_tree to /\
+    blen HO (ob_data to) <= blen HO (ob_data to') /\
+    blen HO (ob_data to') <= N.max (blen HO (ob_data to)) ((sp_blocks size bs - 1) * 64) /\
+    (forall nd p, In nd nodes -> ld nd = Ok (Some p) ->
+       load_sync HO to' nd = Ok (Some p) /\ load_fsm HO to' nd = Ok (Some p)) /\
+    (forall nd o, In nd (sp_pre_nodes size bs) -> sp_persisted size bs nd = true ->
+       ob_offset HO to nd = Some o -> o * 64 + 64 <= blen HO (ob_data to) ->
+       (~ In nd nodes \/ ld nd = Ok None) ->
+       load_sync HO to' nd = load_sync HO to nd /\ load_fsm HO to' nd = load_fsm HO to nd).
+Proof. exact gap_copy_gen. Qed.
+Print Assumptions C12_gap_copy_gen.
+
+(* instance: the post-order store of a five-chunk tree with node 1 removed, copied into a pre-order buffer *)
+Theorem C12_gap_copy_gen_nonvacuous :
+  let src := mkOb PostMem [] (mkTree 5120 0) (wdat 256) : outboard term_hops in
+  let ld := fun nd => if nd =? 1 then Ok None else load_sync term_hops src nd in
+  let to := mkOb PreMem [] (mkTree 5120 0) (map wbyte (seq 1000 256)) : outboard term_hops in
+  (forall nd l r, ld nd = Ok (Some (l, r)) -> length l = 32%nat /\ length r = 32%nat) /\
+  (forall nd, In nd (sp_pre_nodes 5120 0) -> exists x, ld nd = Ok x) /\
+  (forall nd p, In nd (sp_pre_nodes 5120 0) -> ld nd = Ok (Some p) ->
+     In nd (sp_pre_nodes 5120 0) /\ sp_persisted 5120 0 nd = true) /\
+  ld 1 = Ok None /\ In 1 (sp_pre_nodes 5120 0) /\ sp_persisted 5120 0 1 = true /\
+  copy_gen term_hops ld (sp_pre_nodes 5120 0) to =
+    Ok (mkOb PreMem [] (mkTree 5120 0)
+          (map wbyte (seq 192 64 ++ seq 1064 64 ++ seq 0 64 ++ seq 64 64))).
+Proof. exact gap_copy_gen_nonvacuous. Qed.
+Print Assumptions C12_gap_copy_gen_nonvacuous.
+
+(* Sources of the crate that "answer None at some nodes": an outboard of ANY kind (EmptyOutboard included) and any
+   content over the tree answers None exactly at the nodes of the traversal that store nothing, with both loaders;
+   so at stored nodes a crate source answers a pair or fails. *)
+Theorem C12_gap_source_none_iff : forall (HO : hops) (size bs : N) (from : outboard HO) (nd : N),
+  size <= 2 ^ 63 -> bs <= 10 -> ob_tree from = mkTree size bs -> In nd (sp_pre_nodes size bs) ->
+  (load_sync HO from nd = Ok None <-> sp_persisted size bs nd = false) /\
+  (load_fsm HO from nd = Ok None <-> sp_persisted size bs nd = false).
+Proof. exact gap_source_none_iff. Qed.
+Print Assumptions C12_gap_source_none_iff.
+
+(* sync::copy.  Source: any kind, any content, over the tree, holding a pair for every stored node.  Target: any of
+   the four slotted kinds over the tree, either order; in-memory targets at least as long as the outboard, files of
+   any length.  The copy succeeds; the target ends with exactly max(old length, outboard size) bytes; at EVERY node
+   of the traversal both loaders of the result return what the source's loader returns. *)
+Theorem C12_gap_copy_sync : forall (HO : hops) (size bs : N) (from to : outboard HO),
+  size <= 2 ^ 63 -> bs <= 10 ->
+  ob_tree from = mkTree size bs ->
+  (ob_k to = PreIO \/ ob_k to = PostIO \/ ob_k to = PreMem \/ ob_k to = PostMem) ->
+  ob_tree to = mkTree size bs ->
+  ((ob_k to = PreMem \/ ob_k to = PostMem) -> (sp_blocks size bs - 1) * 64 <= blen HO (ob_data to)) ->
+  (forall nd, In nd (sp_pre_nodes size bs) -> sp_persisted size bs nd = true ->
+     exists p, load_sync HO from nd = Ok (Some p)) ->
+  exists to', copy HO from to = Ok to' /\
+    ob_k to' = ob_k to /\ ob_root to' = ob_root to /\ ob_tree to' = ob_tree to /\
+    blen HO (ob_data to') = N.max (blen HO (ob_data to)) ((sp_blocks size bs - 1) * 64) /\
+    forall nd, In nd (sp_pre_nodes size bs) ->
+      load_sync HO to' nd = load_sync HO from nd /\ load_fsm HO to' nd = load_sync HO from nd.
+Proof. exact gap_copy_sync. Qed.
+Print Assumptions C12_gap_copy_sync.
+
+(* fsm::copy: the same with the fsm loader of the source *)
+Theorem C12_gap_copy_fsm : forall (HO : hops) (size bs : N) (from to : outboard HO),
+  size <= 2 ^ 63 -> bs <= 10 ->
+  ob_tree from = mkTree size bs ->
+  (ob_k to = PreIO \/ ob_k to = PostIO \/ ob_k to = PreMem \/ ob_k to = PostMem) ->
+  ob_tree to = mkTree size bs ->
+  ((ob_k to = PreMem \/ ob_k to = PostMem) -> (sp_blocks size bs - 1) * 64 <= blen HO (ob_data to)) ->
+  (forall nd, In nd (sp_pre_nodes size bs) -> sp_persisted size bs nd = true ->
+     exists p, load_fsm HO from nd = Ok (Some p)) ->
+  exists to', copy_fsm HO from to = Ok to' /\
+    ob_k to' = ob_k to /\ ob_root to' = ob_root to /\ ob_tree to' = ob_tree to /\
+    blen HO (ob_data to') = N.max (blen HO (ob_data to)) ((sp_blocks size bs - 1) * 64) /\
+    forall nd, In nd (sp_pre_nodes size bs) ->
+      load_sync HO to' nd = load_fsm HO from nd /\ load_fsm HO to' nd = load_fsm HO from nd.
+Proof. exact gap_copy_fsm. Qed.
+Print Assumptions C12_gap_copy_fsm.
+
+(* instance of both: five chunks, four stored pairs of distinct bytes, post-order memory -> empty pre-order file;
+   the result is computed *)
+Theorem C12_gap_copy_nonvacuous :
+  let from := mkOb PostMem [] (mkTree 5120 0) (wdat 256) : outboard term_hops in
+  let to := mkOb PreIO [] (mkTree 5120 0) [] : outboard term_hops in
+  5120 <= 2 ^ 63 /\ 0 <= 10 /\ sp_blocks 5120 0 - 1 = 4 /\
+  ob_tree from = mkTree 5120 0 /\
+  (ob_k to = PreIO \/ ob_k to = PostIO \/ ob_k to = PreMem \/ ob_k to = PostMem) /\
+  ob_tree to = mkTree 5120 0 /\
+  ((ob_k to = PreMem \/ ob_k to = PostMem) -> (sp_blocks 5120 0 - 1) * 64 <= blen term_hops (ob_data to)) /\
+  (forall nd, In nd (sp_pre_nodes 5120 0) -> sp_persisted 5120 0 nd = true ->
+     exists p, load_sync term_hops from nd = Ok (Some p)) /\
+  (forall nd, In nd (sp_pre_nodes 5120 0) -> sp_persisted 5120 0 nd = true ->
+     exists p, load_fsm term_hops from nd = Ok (Some p)) /\
+  copy term_hops from to =
+    Ok (mkOb PreIO [] (mkTree 5120 0)
+          (map wbyte (seq 192 64 ++ seq 128 64 ++ seq 0 64 ++ seq 64 64))) /\
+  copy_fsm term_hops from to = copy term_hops from to.
+Proof. exact gap_copy_nonvacuous. Qed.
+Print Assumptions C12_gap_copy_nonvacuous.
+
+(* The outcome without the hypothesis on the source: a copy into such a target succeeds exactly when the source's
+   loader answers at every stored node; otherwise it reports a failure of the SOURCE's loader at a stored node
+   (a save into such a target never fails). *)
+Theorem C12_gap_copy_sync_outcome : forall (HO : hops) (size bs : N) (from to : outboard HO),
+  size <= 2 ^ 63 -> bs <= 10 ->
+  ob_tree from = mkTree size bs ->
+  (ob_k to = PreIO \/ ob_k to = PostIO \/ ob_k to = PreMem \/ ob_k to = PostMem) ->
+  ob_tree to = mkTree size bs ->
+  ((ob_k to = PreMem \/ ob_k to = PostMem) -> (sp_blocks size bs - 1) * 64 <= blen HO (ob_data to)) ->
+  match copy HO from to with
+  | Ok _ => forall nd, In nd (sp_pre_nodes size bs) -> sp_persisted size bs nd = true ->
+              exists p, load_sync HO from nd = Ok (Some p)
+  | Err k => exists nd, In nd (sp_pre_nodes size bs) /\ sp_persisted size bs nd = true /\
+              load_sync HO from nd = Err k
+  | Panic => exists nd, In nd (sp_pre_nodes size bs) /\ sp_persisted size bs nd = true /\
+              load_sync HO from nd = Panic
+  end.
+Proof. exact gap_copy_sync_outcome. Qed.
+Print Assumptions C12_gap_copy_sync_outcome.
+
+(* fsm::copy never reports an io error: fsm loaders of io-backed outboards answer a zero pair on a short read *)
+Theorem C12_gap_copy_fsm_outcome : forall (HO : hops) (size bs : N) (from to : outboard HO),
+  size <= 2 ^ 63 -> bs <= 10 ->
+  ob_tree from = mkTree size bs ->
+  (ob_k to = PreIO \/ ob_k to = PostIO \/ ob_k to = PreMem \/ ob_k to = PostMem) ->
+  ob_tree to = mkTree size bs ->
+  ((ob_k to = PreMem \/ ob_k to = PostMem) -> (sp_blocks size bs - 1) * 64 <= blen HO (ob_data to)) ->
+  match copy_fsm HO from to with
+  | Ok _ => forall nd, In nd (sp_pre_nodes size bs) -> sp_persisted size bs nd = true ->
+              exists p, load_fsm HO from nd = Ok (Some p)
+  | Err k => False
+  | Panic => exists nd, In nd (sp_pre_nodes size bs) /\ sp_persisted size bs nd = true /\
+              load_fsm HO from nd = Panic
+  end.
+Proof. exact gap_copy_fsm_outcome. Qed.
+Print Assumptions C12_gap_copy_fsm_outcome.
+
+(* WITNESS, suspicious in the crate (sync and fsm disagree, and fsm::copy invents): the source file is empty
+   although its tree (two chunk groups) has one stored pair.  sync::copy fails with UnexpectedEof and leaves the
+   target alone; fsm::copy reports success and overwrites the non-zero pair the target held with 64 zero bytes
+   (src/io/fsm.rs:157-168 and 290-301: `if content.len() != 64 { zero hashes }`). *)
+Theorem C12_gap_copy_fsm_truncated_invents :
+  exists (from to : outboard term_hops) (nd : N) (p : hash term_hops * hash term_hops),
+    ob_k from = PreIO /\ ob_tree from = mkTree 2048 0 /\ ob_data from = [] /\
+    ob_k to = PreMem /\ ob_tree to = mkTree 2048 0 /\ blen term_hops (ob_data to) = (sp_blocks 2048 0 - 1) * 64 /\
+    In nd (sp_pre_nodes 2048 0) /\ sp_persisted 2048 0 nd = true /\
+    load_sync term_hops to nd = Ok (Some p) /\ p <> zero_pair term_hops /\
+    load_sync term_hops from nd = Err KUnexpectedEof /\
+    load_fsm term_hops from nd = Ok (Some (zero_pair term_hops)) /\
+    copy term_hops from to = Err KUnexpectedEof /\
+    exists to', copy_fsm term_hops from to = Ok to' /\
+      load_sync term_hops to' nd = Ok (Some (zero_pair term_hops)) /\
+      ob_data to' = zeros term_hops 64.
+Proof. exact gap_copy_fsm_truncated_invents. Qed.
+Print Assumptions C12_gap_copy_fsm_truncated_invents.
+
+(* two stores of the same slotted kind and the outboard's length that load the same pairs at the stored nodes
+   have the same bytes *)
+Theorem C12_gap_sized_ext : forall (HO : hops) (size bs : N) (ob1 ob2 : outboard HO),
+  size <= 2 ^ 63 -> bs <= 10 ->
+  (ob_k ob1 = PreIO \/ ob_k ob1 = PostIO \/ ob_k ob1 = PreMem \/ ob_k ob1 = PostMem) ->
+  ob_k ob2 = ob_k ob1 -> ob_tree ob1 = mkTree size bs -> ob_tree ob2 = mkTree size bs ->
+  blen HO (ob_data ob1) = (sp_blocks size bs - 1) * 64 -> blen HO (ob_data ob2) = (sp_blocks size bs - 1) * 64 ->
+  (forall nd, In nd (sp_pre_nodes size bs) -> sp_persisted size bs nd = true ->
+     load_sync HO ob1 nd = load_sync HO ob2 nd) ->
+  ob_data ob1 = ob_data ob2.
+Proof. exact gap_sized_ext. Qed.
+Print Assumptions C12_gap_sized_ext.
+
+(* "copying it": copying a store of the outboard's length into a store of the same order that is not longer
+   (an empty file, a zeroed buffer, a stale copy) gives the source's bytes exactly, sync and fsm *)
+Theorem C12_gap_copy_same_order : forall (HO : hops) (size bs : N) (from to : outboard HO),
+  size <= 2 ^ 63 -> bs <= 10 ->
+  (ob_k from = PreIO \/ ob_k from = PostIO \/ ob_k from = PreMem \/ ob_k from = PostMem) ->
+  ob_tree from = mkTree size bs -> blen HO (ob_data from) = (sp_blocks size bs - 1) * 64 ->
+  (ob_k to = PreIO \/ ob_k to = PostIO \/ ob_k to = PreMem \/ ob_k to = PostMem) ->
+  ob_tree to = mkTree size bs ->
+  ((ob_k to = PreIO \/ ob_k to = PreMem) <-> (ob_k from = PreIO \/ ob_k from = PreMem)) ->
+  blen HO (ob_data to) <= (sp_blocks size bs - 1) * 64 ->
+  ((ob_k to = PreMem \/ ob_k to = PostMem) -> blen HO (ob_data to) = (sp_blocks size bs - 1) * 64) ->
+  copy HO from to = Ok (mkOb (ob_k to) (ob_root to) (mkTree size bs) (ob_data from)) /\
+  copy_fsm HO from to = Ok (mkOb (ob_k to) (ob_root to) (mkTree size bs) (ob_data from)).
+Proof. exact gap_copy_same_order_full. Qed.
+Print Assumptions C12_gap_copy_same_order.
+
+(* flip: an in-memory outboard of the outboard's length flips to the other order with the same root and tree and
+   the same pair at every node of the traversal (both loaders), and flipping back gives the original outboard *)
+Theorem C12_gap_flip_flip : forall (HO : hops) (size bs : N) (ob : outboard HO),
+  size <= 2 ^ 63 -> bs <= 10 ->
+  (ob_k ob = PreMem \/ ob_k ob = PostMem) -> ob_tree ob = mkTree size bs ->
+  blen HO (ob_data ob) = (sp_blocks size bs - 1) * 64 ->
+  exists ob1, flip HO ob = Ok ob1 /\
+    ob_k ob1 = (match ob_k ob with PostMem => PreMem | _ => PostMem end) /\
+    ob_root ob1 = ob_root ob /\ ob_tree ob1 = ob_tree ob /\
+    blen HO (ob_data ob1) = (sp_blocks size bs - 1) * 64 /\
+    (forall nd, In nd (sp_pre_nodes size bs) ->
+       load_sync HO ob1 nd = load_sync HO ob nd /\ load_fsm HO ob1 nd = load_fsm HO ob nd) /\
+    flip HO ob1 = Ok ob.
+Proof. exact gap_flip. Qed.
+Print Assumptions C12_gap_flip_flip.
+
+Theorem C12_gap_flip_nonvacuous :
+  let ob := mkOb PostMem [] (mkTree 5120 0) (wdat 256) : outboard term_hops in
+  (ob_k ob = PreMem \/ ob_k ob = PostMem) /\ ob_tree ob = mkTree 5120 0 /\
+  blen term_hops (ob_data ob) = (sp_blocks 5120 0 - 1) * 64 /\
+  flip term_hops ob = Ok (mkOb PreMem [] (mkTree 5120 0)
+                            (map wbyte (seq 192 64 ++ seq 128 64 ++ seq 0 64 ++ seq 64 64))) /\
+  flip term_hops (mkOb PreMem [] (mkTree 5120 0)
+                    (map wbyte (seq 192 64 ++ seq 128 64 ++ seq 0 64 ++ seq 64 64))) = Ok ob.
+Proof. exact gap_flip_nonvacuous. Qed.
+Print Assumptions C12_gap_flip_nonvacuous.
+
+(* an in-memory outboard shorter than its tree needs cannot be flipped: the unwrap in flip panics *)
+Theorem C12_gap_flip_short : forall (HO : hops) (size bs : N) (ob : outboard HO),
+  size <= 2 ^ 63 -> bs <= 10 ->
+  (ob_k ob = PreMem \/ ob_k ob = PostMem) -> ob_tree ob = mkTree size bs ->
+  blen HO (ob_data ob) < (sp_blocks size bs - 1) * 64 ->
+  flip HO ob = Panic.
+Proof. exact gap_flip_short. Qed.
+Print Assumptions C12_gap_flip_short.
